@@ -123,9 +123,12 @@ func runCheck(eng *Engine, start time.Time) int {
 	}
 	timeout := *flagTimeout
 	if timeout == 0 {
-		timeout = 40
+		// generous limits: on the unchanged tree no obligation of the quick tier needs more than about a minute on an
+		// idle machine, and a loaded machine (the harness runs a whole property's obligations in parallel) must not turn
+		// a slow proof into a false alarm; only hard or failing obligations ever use the budget
+		timeout = 150
 		if *flagTier == "thorough" {
-			timeout = 180
+			timeout = 400
 		}
 	}
 	workdir := *flagOut
